@@ -103,6 +103,18 @@ impl<L: Language, N: Analysis<L>> EGraph<L, N> {
         self.classes[&i].group.all_perms().into_iter().map(|p| p.elem).collect()
     }
 
+    /// The documented progress measure, computed directly from the state
+    /// (classes allocated, live classes, sum of slots, sum of symmetries).
+    pub fn verif_measure(&self) -> (usize, usize, usize, usize) {
+        let ids = self.ids();
+        (
+            self.classes.len(),
+            ids.len(),
+            ids.iter().map(|x| self.classes[x].slots.len()).sum(),
+            ids.iter().map(|x| self.classes[x].group.count()).sum(),
+        )
+    }
+
     pub fn verif_pending_len(&self) -> usize {
         self.pending.len()
     }
